@@ -646,6 +646,10 @@ def check_accessors(ctx, repo):
 
 
 @rule("C15.accessors", props=["C15", "C08", "C04"], min_instances=19, mutants=[
+    ("consecutive rows of a coefficient array are taken as one block, in stored order", ("multivector", "        vals = {k: getattr(self, self.algebra.bin2canon[k])\n                for k in self.algebra.indices_for_grades[grades] if k in self.keys()}",
+        "        if hasattr(self._values, 'shape'):\n            keys = tuple(k for k in self.algebra.indices_for_grades[grades] if k in self._keys)\n            rows = [self._keys.index(k) for k in keys]\n            if rows and max(rows) - min(rows) + 1 == len(rows):\n                return self.fromkeysvalues(self.algebra, keys, list(self._values[min(rows):max(rows) + 1]))\n        vals = {k: getattr(self, self.algebra.bin2canon[k])\n                for k in self.algebra.indices_for_grades[grades] if k in self.keys()}")),
+    ("asfullmv scatters a coefficient array into np.zeros", ("multivector", "        values = [getattr(self, self.algebra.bin2canon[k]) for k in keys]\n        return self.fromkeysvalues(self.algebra, keys=keys, values=values)",
+        "        if hasattr(self._values, 'shape'):\n            import numpy as np\n            values = np.zeros((len(keys), *self.shape[1:]))\n            values[[keys.index(k) for k in self.keys()]] = self._values\n        else:\n            values = [getattr(self, self.algebra.bin2canon[k]) for k in keys]\n        return self.fromkeysvalues(self.algebra, keys=keys, values=values)")),
     ("grade reads the canonical position", ("multivector", "vals = {k: getattr(self, self.algebra.bin2canon[k])\n                for k in self.algebra.indices_for_grades[grades] if k in self.keys()}",
                                            "vals = {k: self._values[i]\n                for i, k in enumerate(self.algebra.indices_for_grades[grades]) if k in self.keys()}")),
     ("asfullmv binary order uses canonical names", ("multivector", "            keys = tuple(range(len(self.algebra)))\n        values = [getattr(self, self.algebra.bin2canon[k]) for k in keys]",
